@@ -191,6 +191,141 @@ func (c *Ctx) persistAfter(fn *ssa.Function, at ssa.Instruction, isWI, successRe
 	return ""
 }
 
+// c10RecordList decides the one-Encode form of writeIndex: enc encodes, in a loop that walks a
+// slice from its first element, the elements of a list that was built as the mailbox name
+// followed by each element of mbox.messages in order. Returns "" or what is wrong.
+func (c *Ctx) c10RecordList(enc *ssa.Call, fName *types.Var, msgT *types.Named) string {
+	pm := c.pairing()
+	// the encoded value: element i of a slice, i the loop counter
+	u, ok := enc.Call.Args[1].(*ssa.UnOp)
+	if !ok {
+		return "the single Encode site does not encode the elements of a record list"
+	}
+	ia, ok := u.X.(*ssa.IndexAddr)
+	if !ok || !isRangeCounter(ia.Index) || len(loopHeaders(enc.Block())) != 1 {
+		return "the single Encode site does not walk a record list from its first element"
+	}
+	// the list: a local or the result of a package helper
+	vals := []ssa.Value{ia.X}
+	if call, isCall := ia.X.(*ssa.Call); isCall {
+		rets, g := eng.ReturnedValues(call, 0)
+		if g == nil || len(rets) == 0 {
+			return "the record list comes from a call that cannot be resolved"
+		}
+		vals = rets
+	}
+	var head, loop []*ssa.Call
+	seen := map[ssa.Value]bool{}
+	var walk func(v ssa.Value) bool
+	walk = func(v ssa.Value) bool {
+		if seen[v] {
+			return true
+		}
+		seen[v] = true
+		switch x := v.(type) {
+		case *ssa.Phi:
+			for _, e := range x.Edges {
+				if !walk(e) {
+					return false
+				}
+			}
+			return true
+		case *ssa.MakeSlice:
+			k, isK := eng.ConstInt(x.Len)
+			return isK && k == 0
+		case *ssa.Const:
+			return x.IsNil()
+		case *ssa.Call:
+			if eng.CalleeName(x.Common()) != "builtin.append" {
+				return false
+			}
+			if len(loopHeaders(x.Block())) > 0 {
+				loop = append(loop, x)
+			} else {
+				head = append(head, x)
+			}
+			return walk(x.Call.Args[0])
+		}
+		return false
+	}
+	for _, v := range vals {
+		if !walk(v) {
+			return "the record list is not built by appending to an empty slice"
+		}
+	}
+	if len(head) != 1 || len(loop) != 1 || !eng.Dominates(head[0], loop[0]) {
+		return fmt.Sprintf("the record list is not one leading record followed by one loop of records (leading appends=%d, loop appends=%d)", len(head), len(loop))
+	}
+	elems := func(ap *ssa.Call) []ssa.Value {
+		var out []ssa.Value
+		sl, ok := ap.Call.Args[1].(*ssa.Slice)
+		if !ok {
+			return nil
+		}
+		al, ok := sl.X.(*ssa.Alloc)
+		if !ok {
+			return nil
+		}
+		for _, ref := range *al.Referrers() {
+			if ia, ok := ref.(*ssa.IndexAddr); ok {
+				for _, r2 := range *ia.Referrers() {
+					if st, ok := r2.(*ssa.Store); ok {
+						out = append(out, st.Val)
+					}
+				}
+			}
+		}
+		return out
+	}
+	he, le := elems(head[0]), elems(loop[0])
+	if len(he) != 1 || len(le) != 1 {
+		return "the record list appends more than one record at a time"
+	}
+	if mi, ok := he[0].(*ssa.MakeInterface); !ok || !eng.SameField(eng.LoadedField(mi.X), fName) {
+		return "the first encoded record is not mbox.name"
+	}
+	mi, ok := le[0].(*ssa.MakeInterface)
+	if !ok || !types.Identical(mi.X.Type(), types.NewPointer(msgT)) {
+		return "the repeated encoded record is not *file.Message"
+	}
+	// each message in order: element of mbox.messages at the range counter
+	mu, ok := mi.X.(*ssa.UnOp)
+	if !ok {
+		return "the repeated record is not an element of mbox.messages"
+	}
+	mia, ok := mu.X.(*ssa.IndexAddr)
+	if !ok || !isRangeCounter(mia.Index) || !pm.ok || !eng.SameField(eng.LoadedField(mia.X), pm.fileMsgs) || len(loopHeaders(loop[0].Block())) != 1 {
+		return "the repeated records are not the elements of mbox.messages in order"
+	}
+	return ""
+}
+
+// isRangeCounter: v is the counter of a slice range loop: φ(-1 | 0, itself + 1), or that + 1.
+func isRangeCounter(v ssa.Value) bool {
+	if b, ok := v.(*ssa.BinOp); ok && b.Op == token.ADD {
+		if k, isK := eng.ConstInt(b.Y); isK && k == 1 {
+			v = b.X
+		}
+	}
+	ph, ok := v.(*ssa.Phi)
+	if !ok || len(ph.Edges) != 2 {
+		return false
+	}
+	init, step := false, false
+	for _, e := range ph.Edges {
+		if k, isK := eng.ConstInt(e); isK && (k == 0 || k == -1) {
+			init = true
+			continue
+		}
+		if b, ok := e.(*ssa.BinOp); ok && b.Op == token.ADD && b.X == ssa.Value(ph) {
+			if k, isK := eng.ConstInt(b.Y); isK && k == 1 {
+				step = true
+			}
+		}
+	}
+	return init && step
+}
+
 func (c *Ctx) c10Codec(fm *fsModel, readIndex *ssa.Function, msgT *types.Named, fName *types.Var) {
 	r, p := c.R, c.P
 	w := fm.writeIdx
@@ -228,7 +363,26 @@ func (c *Ctx) c10Codec(fm *fsModel, readIndex *ssa.Function, msgT *types.Named, 
 		return a.Type()
 	}
 	var probs []string
-	if len(encs) != 2 || len(decs) != 2 {
+	if len(encs) == 1 && len(decs) == 2 && decs[0].Parent() == decs[1].Parent() {
+		// one Encode in a loop over a record list built as [name, messages...]
+		sort.Slice(decs, func(i, j int) bool { return eng.Dominates(decs[i], decs[j]) })
+		if why := c.c10RecordList(encs[0], fName, msgT); why != "" {
+			probs = append(probs, why)
+		}
+		d0, d1 := argT(decs[0]), argT(decs[1])
+		if !eng.Dominates(decs[0], decs[1]) {
+			probs = append(probs, "name and message records are not decoded in a fixed order")
+		}
+		if pt, ok := d0.(*types.Pointer); !ok || !isString(pt.Elem()) {
+			probs = append(probs, "the first decoded record ("+d0.String()+") does not match the first encoded record (string)")
+		}
+		if !types.Identical(d1, types.NewPointer(msgT)) {
+			probs = append(probs, "the repeated decoded record ("+d1.String()+") does not match the encoded one (*file.Message)")
+		}
+		if len(loopHeaders(decs[1].Block())) != 1 || len(loopHeaders(decs[0].Block())) != 0 {
+			probs = append(probs, "records are not read as one name followed by a single loop of messages")
+		}
+	} else if len(encs) != 2 || len(decs) != 2 {
 		probs = append(probs, fmt.Sprintf("expected 2 Encode sites (name, message) and 2 Decode sites, found %d and %d", len(encs), len(decs)))
 	} else if encs[0].Parent() != encs[1].Parent() || decs[0].Parent() != decs[1].Parent() {
 		probs = append(probs, "the name and message records are encoded (or decoded) in different functions: their order cannot be decided")
